@@ -60,7 +60,12 @@ let handle (i : string list) (o : string list) =
                  c_window = nat_of_int (int_of_n (n_of_hex window)); c_closable = (closable = "1");
                  c_tlen = lenN content; c_debug = (prof = "dev") } in
        let blocks_buf = blocks_of_buffer rep raptor_src c content in
-       let blocks = if src = "buf" then blocks_buf else blocks_of_stream rep raptor_src c content reads in
+       (* a stream source is run through Model.StreamPos: the position the stream is handed over at
+          ("stream@<hex>", 0 otherwise) and the seek of BlockEncoder::new are part of the model that is executed *)
+       let stream_pos = match String.index_opt src '@' with
+         | Some i -> n_of_hex (String.sub src (i + 1) (String.length src - i - 1)) | None -> n_of_hex "0" in
+       let blocks = if src = "buf" then blocks_buf
+         else transfer_blocks rep raptor_src true c { ss_bytes = content; ss_pos = stream_pos } reads in
        let fuel = nat_of_int (int_of_nat (total_shards blocks) + 3) in
        let model = enc_run fuel c forces (est_init blocks) in
        let model = List.map (function OPkt p -> OPkt (canon_pkt p) | x -> x) model in
